@@ -56,9 +56,16 @@ func (*MemMapFs) Name() string { return "MemMapFS" }
 func (m *MemMapFs) Create(name string) (File, error) {
 	name = normalizePath(name)
 	m.mu.Lock()
-	file := mem.CreateFile(name)
-	m.getData()[name] = file
-	m.registerWithParent(file, 0)
+	file, ok := m.getData()[name]
+	if ok && !mem.GetFileInfo(file).IsDir() {
+		// Like os.Create, an existing file is truncated in place: it keeps its mode and
+		// handles that are already open on it keep referring to the same file.
+		mem.NewFileHandle(file).Truncate(0)
+	} else {
+		file = mem.CreateFile(name)
+		m.getData()[name] = file
+		m.registerWithParent(file, 0)
+	}
 	m.mu.Unlock()
 	return mem.NewFileHandle(file), nil
 }
